@@ -94,6 +94,24 @@ def mesh(cname, N):
     return fn
 
 
+def mesh_sequence(cname, Ns):
+    """several meshes reduced one after the other on ONE Crystal object (same number of points, different divisions): every
+    reduction must be right, whatever was reduced before"""
+    def fn(src=None):
+        src = src or Src()
+        obs = []
+        for N in Ns:
+            for o in mesh(cname, N)(src):
+                if o[0].startswith('twin:') and N != Ns[-1]:
+                    continue
+                info = dict(o[2], replayer='meshseq', extra={'crystal': cname, 'Ns': [list(n) for n in Ns]}) if len(o) > 2 else None
+                obs.append((o[0].replace('mesh:', 'meshseq:', 1), o[1], info) if info else (o[0].replace('mesh:', 'meshseq:', 1), o[1]))
+        return obs
+    return fn
+
+
+SEQ3 = [(4, 4, 6), (6, 4, 4), (4, 6, 4), (3, 4, 8)]
+SEQ2 = [(4, 6), (6, 4), (3, 8)]
 MESH3 = [(4, 4, 4), (5, 5, 5), (4, 6, 3), (3, 3, 3)]
 MESH2 = [(6, 6), (5, 4), (3, 3)]
 QUICK = ['sc', 'fcc', 'hcp', 'bcc', 'square', 'tria', 'rect1', 'honeycomb', 'bct', 'tricl', 'rhomb', 'oblique']
@@ -110,6 +128,11 @@ def sections(tier):
                 continue
             secs.append(S('mesh:%s:%s' % (c, 'x'.join(map(str, N))), mesh(c, N), budget_s=170 if tier == 'quick' else 1200, replayer='mesh',
                           config=c, maxpaths=2, timeout_ms=30000))
+    for c in (['ortho1', 'hcp', 'tricl', 'rect1', 'oblique'] if tier == 'quick' else ['ortho1', 'hcp', 'tricl', 'rect1', 'oblique', 'sc', 'bct', 'square', 'rect2']):
+        dim = geom.get_crystal(c).dim
+        Ns = SEQ3 if dim == 3 else SEQ2
+        secs.append(S('meshseq:%s' % c, mesh_sequence(c, Ns), budget_s=170 if tier == 'quick' else 1200, replayer='meshseq', config=c,
+                      maxpaths=2, timeout_ms=30000))
     return secs
 
 
@@ -117,7 +140,8 @@ def main():
     import warnings
     warnings.simplefilter('ignore')
     if REPLAY:
-        run.replay_main('C22', {'mesh': lambda rec: harness.run_laws_concrete(mesh(rec['extra']['crystal'], tuple(rec['extra']['N'])), rec)})
+        run.replay_main('C22', {'mesh': lambda rec: harness.run_laws_concrete(mesh(rec['extra']['crystal'], tuple(rec['extra']['N'])), rec),
+                                'meshseq': lambda rec: harness.run_laws_concrete(mesh_sequence(rec['extra']['crystal'], [tuple(n) for n in rec['extra']['Ns']]), rec)})
     C = crystal.Crystal
     chk = run.Check(
         'C22',
@@ -130,7 +154,7 @@ def main():
         ],
         explanation='Real mesh generation/reduction; exactness of the reduced quadrature for every function of an invariant periodic family '
                     'decided by z3; weights and BZ membership decided on the same run.',
-        bounds='quick: %s; thorough: %s; meshes %s / %s' % (QUICK, THOROUGH, MESH3, MESH2))
+        bounds='quick: %s; thorough: %s; meshes %s / %s; sequences on one Crystal object %s / %s' % (QUICK, THOROUGH, MESH3, MESH2, SEQ3, SEQ2))
     chk.run(sections(chk.tier))
     chk.finish()
 
